@@ -985,11 +985,11 @@ def desc_labels(desc, clazz, tree, union_classes=None, root_ns=None):
         return hits[0] if len(hits) == 1 else None
 
     def element(path, node, cname, pns, in_union):
-        labels[path] = ("element", cname)
-        if in_union:
-            inside.add(path)
         own = (by[cname].get("meta") or {}).get("namespace")
         ns = own if own is not None else pns
+        labels[path] = ("element", cname, ns)
+        if in_union:
+            inside.add(path)
         fields = desc_fields(desc, cname)
         for i, c in enumerate(node["c"]):
             child(path + (i,), c, cname, ns, fields, None, in_union)
@@ -1003,7 +1003,7 @@ def desc_labels(desc, clazz, tree, union_classes=None, root_ns=None):
             for f in fields:
                 w = f.get("metadata", {}).get("wrapper")
                 if w and _qn(f["metadata"].get("namespace", ns) or None, w) == q:
-                    labels[path] = ("wrapper", cname)
+                    labels[path] = ("wrapper", cname, ns)
                     for j, g in enumerate(node["c"]):
                         child(path + (j,), g, cname, ns, fields, q, in_union)
                     return
@@ -1066,3 +1066,67 @@ def desc_labels(desc, clazz, tree, union_classes=None, root_ns=None):
 
     element((), tree, clazz, root_ns, False)
     return {p: l for p, l in labels.items() if l is not None}, inside
+
+
+# --------------------------------------------------------------------------
+# does a wildcard / any-attribute field of the class take this name?  From the description and
+# the XSD meaning of the namespace constraint (##any, ##other, ##local, ##targetNamespace, a list
+# of namespace names; NO constraint = the names without a namespace only, for a Wildcard field
+# after inheriting the namespace of its class).  True / False / None = not settled here.
+# --------------------------------------------------------------------------
+def _ns_allows(constraint, class_ns, q):
+    uri = q[1:].split("}")[0] if q.startswith("{") else None
+    if not constraint:
+        return uri is None
+    res = False
+    for tok in constraint.split():
+        if tok == "##any":
+            return True
+        if tok == "##local":
+            ok = uri is None
+        elif tok == "##targetNamespace":
+            if not class_ns:
+                return True
+            ok = uri == class_ns
+        elif tok == "##other":
+            if uri is None:
+                return None  # XSD says no, the library says yes: no claim either way
+            ok = uri != (class_ns or "")
+        else:
+            ok = uri == tok
+        res = res or ok
+    return res
+
+
+def _field_takes(desc, cname, class_ns, q, kind):
+    out = False
+    for f in desc_fields(desc, cname):
+        md = f.get("metadata", {})
+        if md.get("type") != kind:
+            continue
+        constraint = md.get("namespace")
+        if constraint is None and kind == "Wildcard":
+            constraint = class_ns
+        r = _ns_allows(constraint, class_ns, q)
+        if r is True:
+            return True
+        if r is None:
+            out = None
+    return out
+
+
+def wildcard_takes(desc, cname, class_ns, q):
+    return _field_takes(desc, cname, class_ns, q, "Wildcard")
+
+
+def attributes_take(desc, cname, class_ns, q):
+    return _field_takes(desc, cname, class_ns, q, "Attributes")
+
+
+def real_match_namespace(namespaces, qname):
+    """the un-memoised XmlVar._match_namespace on a var that holds just this namespaces tuple"""
+    from xsdata.formats.dataclass.models.elements import XmlVar
+
+    v = XmlVar.__new__(XmlVar)
+    v.namespaces = tuple(namespaces)
+    return {"ok": bool(v._match_namespace(qname))}
